@@ -89,3 +89,23 @@ ASSUMPTIONS = list(ASSUMPTIONS) + [
     "bounded fault enumeration only",
     "faults are injected instead of a commit (the transaction did not happen); a commit that succeeded on the server but was reported as failed is outside",
 ]
+
+
+# ------------------------------------------------------------------------------------------------ _record_subvalues: the special rows of subvalues are (re)written on every path
+OPQ = lambda name, sort=None: (lambda e, n, st, old: e.opaque(name, sort) if sort else e.opaque(name))
+subv_contracts = {
+ "RedunBackendDb._record_subvalues": dict(where=f"{DB}:RedunBackendDb._record_subvalues", params={"self": REF, "subvalues": Seq(OBJ), "parent_value_hash": STR},
+    ghost={"special_done": BOOL}, requires=["not special_done"], modifies=["special_done"],
+    locals={"data": Seq(OBJ), "value_hashes": Seq(STR), "existing_value_hashes": Set(STR), "existing_parent_links": Set(STR)},
+    lib={"self.type_registry.serialize(": OPQ("data", OBJ), "self.type_registry.get_hash(": OPQ("hash", STR), "self.type_registry.get_type_name(": OPQ("type_name", STR),
+         "self.type_registry.get_serialization_format(": OPQ("format", STR), "filter_in(": OPQ("rows"), "self.with_session()": OPQ("session"),
+         "session.add(": lambda e, n, st, old: T(NONE, "none"), "session.commit()": lambda e, n, st, old: T(NONE, "none"), "Value(": OPQ("row"), "Subvalue(": OPQ("row")},
+    before_call={("RedunBackendDb._record_special_redun_values", 0): ["arg0 == subvalues", "arg1 == value_hashes"]},
+    after_call={("RedunBackendDb._record_special_redun_values", "*"): "special_done = True"},
+    # whether or not new Value / Subvalue rows had to be inserted, the File / Task rows of the subvalues are made sure to exist (a retry or a recovery
+    # run finds the Values and links of an interrupted recording in place and must still write the special rows)
+    ensures=["special_done"]),
+ "RedunBackendDb._record_special_redun_values": dict(where=f"{DB}:RedunBackendDb._record_special_redun_values", params={"self": REF, "values": Seq(OBJ), "value_hashes": Seq(STR)}),
+}
+SUBV_MODULE = Module(classes={"self": "RedunBackendDb"}, contracts=subv_contracts)
+MODULES = list(MODULES) + [(SUBV_MODULE, ["RedunBackendDb._record_subvalues"])]
